@@ -523,6 +523,38 @@ Section MRender.
       end
       end.
 
+    (* mcomp with the error of the child's TEMPLATE render deferred, as the implementation's render queue does: a nested
+       component's template is rendered after its parent's template has finished, so an error in it cannot pre-empt what
+       the parent does later.  Used only by the comparison rule for implementation RecursionErrors (no theorem). *)
+    Definition mcomp_d (cname : str) (kw : list (str * expr)) (only : bool) (body : list tpl) (g : gstate) (c : ctxt) : mres R :=
+      match mkwargs kw (dicts c) with
+      | None => MUnsup 1
+      | Some kwv =>
+      if is_extracting (dicts c) then MOk ([], g, c)
+      else
+      match slookup cname lib with
+      | None => MErr ENotRegistered
+      | Some cd =>
+        mbind (m_resolve_fills g c body) (fun '(fills, g1, c1) =>
+        let isolated := only || negb is_django in
+        let '(cc, g2) := if isolated then make_isolated_context_copy g1 c1 else (c1, g1) in
+        let '(rid, g3) := fresh g2 in
+        let '(outer_snap, g4) := snapshot g3 c1 in
+        mbind (m_eval_data (c_data cd) kwv g4 (dicts cc)) (fun data =>
+        let ds1 := cpush data (dicts cc) in
+        let ds2 := cpush [(KEY, CId rid); (CVARS, CVars (map (fun kf => escape_name (fst kf)) fills))] ds1 in
+        let '(snap, g5) := snapshot g4 (with_dicts cc ds2) in
+        let cc_after := with_dicts cc (cpop (cpop ds2)) in
+        let g6 := set_cctx g5 (aset rid {| ci_name := cname; ci_fills := fills; ci_default := None; ci_outer := Some outer_snap |} (g_cctx g5)) in
+        match mrl g6 snap (c_tpl cd) with
+        | MOk (a, g7, _) => MOk (a, set_cctx g7 (aremove rid (g_cctx g7)), if isolated then c1 else cc_after)
+        | MErr _ => MOk ([], g5, if isolated then c1 else cc_after)       (* raised later, from the queue *)
+        | MFuel => MFuel
+        | MUnsup w => MUnsup w
+        end))
+      end
+      end.
+
     Definition mstep (g : gstate) (c : ctxt) (t : tpl) : mres R :=
       match t with
       | TText s => MOk (s, g, c)
@@ -537,6 +569,20 @@ Section MRender.
           (* wrapper_render resolves the arguments first *)
           if is_extracting (dicts c) then mfill name dv defv body g c else MErr ETemplateSyntax
       end.
+    Definition mstep_d (g : gstate) (c : ctxt) (t : tpl) : mres R :=
+      match t with
+      | TText s => MOk (s, g, c)
+      | TOut e => mout e g c
+      | TIf cnd a b => if ctruthy (meval cnd (dicts c)) then mrl g c a else mrl g c b
+      | TFor x e body => mfor x (meval e (dicts c)) (fun g c => mrl g c body) g c
+      | TWith x e body => mwith x (meval e (dicts c)) (fun g c => mrl g c body) g c
+      | TProvide key kw body => mprovide key kw (fun g c => mrl g c body) g c
+      | TSlot name isd isr data body => mslot name isd isr data body g c
+      | TComp cname kw only body => mcomp_d cname kw only body g c
+      | TFill name dv defv body =>
+          (* wrapper_render resolves the arguments first *)
+          if is_extracting (dicts c) then mfill name dv defv body g c else MErr ETemplateSyntax
+      end.
   End Step.
 
   Fixpoint mrender (fuel : nat) (g : gstate) (c : ctxt) (t : tpl) {struct fuel} : mres R :=
@@ -546,6 +592,12 @@ Section MRender.
     end.
 
   Definition mrender_list (fuel : nat) (g : gstate) (c : ctxt) (ts : list tpl) : mres R := mrl (mrender fuel) g c ts.
+
+  Fixpoint mrender_d (fuel : nat) (g : gstate) (c : ctxt) (t : tpl) {struct fuel} : mres R :=
+    match fuel with
+    | O => MFuel
+    | S f => mstep_d (mrender_d f) g c t
+    end.
 End MRender.
 
 (* Template(page).render(Context(dict(ctx))) *)
@@ -856,3 +908,16 @@ Definition wf_prog_pass (p : prog) : bool :=
   forallb (fun nc => wf_cdef_q (snd nc)) (p_lib p) &&
   forallb (fun kv => binder_ok (fst kv)) (p_ctx p) &&
   wf_lq (map fst (p_ctx p)) (p_page p).
+
+(* An implementation RecursionError with several error sources: M renders children in place and stops at the first
+   error in document order, the implementation defers the children's templates.  The run agrees when M does not
+   terminate once the errors of child templates are deferred too. *)
+Definition check_mech_diverges_deferred (p : prog) : bool :=
+  match mrender_prog 200 p with
+  | MFuel => true
+  | MErr _ => match mrl (mrender_d (p_mode p) (p_lib p) 200) g0 (page_ctxt p) (p_page p) with
+              | MFuel => true
+              | _ => false
+              end
+  | _ => false
+  end.
